@@ -144,6 +144,7 @@ class _S:
 
 
 _MASS_CACHE = {}
+_CANON_CACHE = {}
 
 
 def enumerate_outcomes(mol: Mol, targets, max_paths=200000, tie_tol=1e-9):
@@ -161,8 +162,14 @@ def enumerate_outcomes(mol: Mol, targets, max_paths=200000, tie_tol=1e-9):
         npaths[0] += 1
         if npaths[0] > max_paths:
             raise OverflowError("too many paths")
-        m = refchem.assemble(s.res, s.links)
-        key = refchem.canon(m)
+        ck = (tuple(id(t) for t in s.res), tuple(s.links))
+        key = _CANON_CACHE.get(ck)
+        if key is None:
+            m = refchem.assemble(s.res, s.links)
+            key = refchem.canon(m)
+            if len(_CANON_CACHE) > 200000:
+                _CANON_CACHE.clear()
+            _CANON_CACHE[ck] = key
         out[key] = out.get(key, 0.0) + p
 
     def elem(ei, s, p, ti):
